@@ -165,6 +165,27 @@ def check_C17(tier):
                 chk.violation("pipe / temp dir left behind at return (%s): %s" % (label, sorted(set(left))[:3]), replay)
         chk.nontrivial.add(json.dumps(c))
         chk.sample(dict(kind="streaming-run", case=label, runs=len(rrs)), limit=6)
+    # ---- streaming outputs declared in not-yet-existing directories: nested below the working directory, and by an absolute path
+    for outdir in ("sub/dir/", "$PWD/absout/deeper/"):
+        inst = stream_inst(2, 4, 1000); inst["name"] = "STDIR"
+        for pr in inst["procs"]:
+            if pr["name"] == "p": pr["outdir"] = outdir
+        rr = fc.real_runs(inst, [dict(env={}, bufsize=4, timeout=30)])[0]
+        chk.evaluations += 1
+        replay = dict(instance=inst, outdir=outdir)
+        if rr.timeout or rr.deadlock or rr.rc != 0 or not rr.completed:
+            chk.violation("streaming output declared in %r: workflow %s: %s" % (outdir, "did not terminate" if (rr.timeout or rr.deadlock) else "failed rc=%s" % rr.rc,
+                                                                             rr.stderr[-200:].replace("\n", " | ")), replay); continue
+        for item in zoo.items(2):
+            cpath, want, _ = expected_consumer(item, 1000)
+            got = rr.snapshot.get(cpath, {}).get("text")
+            if got != want:
+                chk.violation("streaming output declared in %r: consumer did not receive exactly the producer's bytes (%d instead of %d)" % (outdir, len(got or ""), len(want)), replay)
+        left = [p for p in rr.snapshot if p.endswith(".fifo") or os.path.basename(p) in ("p.out_1.txt", "p.out_2.txt") or os.path.basename(p).startswith("_scipipe_tmp")]
+        if left:
+            chk.violation("streaming output declared in %r: pipe, regular file at the stream path or temp dir left behind: %s" % (outdir, left[:3]), replay)
+        else:
+            chk.nontrivial.add("stream-dir:" + outdir)
     # ---- history: complete run, then run again ------------------------------------------------
     inst = stream_inst(2, 4, 1000)
     h = fs.History(inst, [("run", None), ("run", None)], label="complete streaming run, run again"); h.accept = False
